@@ -12,12 +12,13 @@ Inductive oparse := OOk (v : bytes) | OOptions | OUnicode | OOther.
    the Authorization / Proxy-Authorization fields in order *)
 Inductive owrite := OW (ord : N) (hop : addr) (via tunnelled connect : bool) (nfields : N) (auth : list field).
 (* one step: heads received during it, the client connection is still open afterwards, a layer raised *)
-Inductive ostep := OStep (ws : list owrite) (alive crashed : bool).
+Inductive ostep :=
+| OStep (ws : list owrite) (alive crashed : bool)
+| OConf (impl_auth : option bytes).      (* UpstreamAuth.auth after a configure step *)
 
 Inductive case :=
 | Parse (auth : list N) (impl : oparse)
-| Session (auth : option (list N)) (send_host eager fixed : bool) (impl_cred : option bytes)
-          (evs : list wevent) (impl : list ostep).
+| Session (send_host eager fixed : bool) (evs : list wevent) (impl : list ostep).
 
 Definition is_auth_field (f : field) : bool := name_eqb (fst f) PA || name_eqb (fst f) AZ.
 Definition field_eqb (a b : field) : bool := bytes_eqb (fst a) (fst b) && bytes_eqb (snd a) (snd b).
@@ -40,7 +41,8 @@ Definition write_eqb (c : N) (mw : N * write) (o : owrite) : bool :=
       && list_eqb field_eqb (filter is_auth_field w.(w_fields)) auth
   end.
 
-Definition ev_conn (e : wevent) : N := match e with WOpen c _ => c | WEv c _ => c end.
+Definition ev_conn (e : wevent) : N :=
+  match e with WOpen c _ => c | WEv c _ => c | WClose c => c | WConfigure _ => 0 end.
 
 Definition alive_of (c : N) (ws : wstate) : bool :=
   match lookup c ws.(ws_conns) with Some st => st.(cs_alive) | None => false end.
@@ -48,6 +50,10 @@ Definition alive_of (c : N) (ws : wstate) : bool :=
 Fixpoint check_steps (cfg : config) (ws : wstate) (es : list wevent) (os : list ostep) : bool :=
   match es, os with
   | [], [] => true
+  | WConfigure opt :: er, OConf a :: orr =>
+      let (ws1, w1) := wstep cfg ws (WConfigure opt) in
+      option_eqb bytes_eqb ws1.(ws_auth) a && check_steps cfg ws1 er orr
+  | WConfigure _ :: _, _ => false
   | e :: er, OStep ows alive crashed :: orr =>
       let (ws1, w1) := wstep cfg ws e in
       negb crashed
@@ -66,8 +72,7 @@ Definition check_case (c : case) : bool :=
       | PUnicodeError, OUnicode => true
       | _, _ => false
       end
-  | Session auth send_host eager fixed impl_cred evs impl =>
-      let a := configure auth in
-      let cfg := {| c_auth := a; c_send_host := send_host; c_eager := eager; c_fixed := fixed |} in
-      option_eqb bytes_eqb a impl_cred && check_steps cfg ws_init evs impl
+  | Session send_host eager fixed evs impl =>
+      let cfg := {| c_auth := None; c_send_host := send_host; c_eager := eager; c_fixed := fixed |} in
+      check_steps cfg ws_init evs impl
   end.
